@@ -20,7 +20,7 @@ PROPERTY_ID = "C19"
 RULE = (
     "equivalent renderings (55%): program from the C01 generator plus precedence-sensitive constants (2-3-4, -2**2, 2**3**2, 6/3*2, ...); rendering B differs "
     "from rendering A in >= 2 of: whitespace, comments, blank lines, redundant parentheses, decimal vs fraction literals, explicit vs omitted last probability, "
-    "simultaneous assignment vs explicit temporaries, elif vs nested else-if.  ill-formed (30%): one of 11 structural mutation operators.  invalid probability "
+    "simultaneous assignment vs explicit temporaries, elif vs nested else-if.  ill-formed (25%): one of 11 structural mutation operators.  constant names (5%): a variable renamed to e, pi, oo, inf, nan, zoo, E or I must be rejected or analysed like the original.  invalid probability "
     "vectors (15%).  non-trivial (a) = the two texts differ and the program has a choice, a simultaneous assignment or a precedence-sensitive constant; "
     "(b) = the mutated text differs from the valid text; distinct by the texts"
 )
@@ -34,6 +34,18 @@ RAWS = [["2-3-4", "-5"], ["-2**2", "-4"], ["2**3**2", "512"], ["6/3*2", "4"], ["
         ["1-2*3", "-5"], ["10-4+3", "9"], ["2**-1", "1/2"], ["1/2**2", "1/4"], ["(1+2)*3", "9"], ["2*(3-5)", "-4"], ["(-2)**2", "4"], ["3*(-2)**2", "12"], ["(-1)**3", "-1"], ["((-3))**2", "9"]]
 OPERATORS = ["drop_end", "drop_colon", "open_paren", "dangling_operator", "two_statements_one_line", "elif_without_if", "bad_comparison",
              "empty_branch", "prob_without_alternative", "stray_brace", "drop_while"]
+
+
+CONSTANT_NAMES = ["e", "pi", "oo", "inf", "nan", "zoo", "E", "I"]
+
+
+def rename_variable(node, old, new):
+    """every occurrence of the variable name `old` in an AST (targets, uses, simultaneous lists, function arguments); tags never equal a variable name"""
+    if isinstance(node, list):
+        return [rename_variable(x, old, new) for x in node]
+    if isinstance(node, dict):
+        return {(new if k == old else k): rename_variable(v, old, new) for k, v in node.items()}
+    return new if node == old else node
 
 
 def budget(tier):
@@ -68,8 +80,15 @@ def cases(draw, tier="quick"):
         knobs = draw(st.lists(st.sampled_from(["whitespace", "comments", "blank_lines", "parens", "decimals", "last_prob", "temporaries", "nested_else"]),
                               min_size=2, max_size=5, unique=True))
         return {"what": "equivalent", "prog": prog, "goals": goals, "knobs": knobs, "points": draw(gen.param_points(prog, 1))}
-    if r <= 16:
+    if r <= 15:
         return {"what": "illformed", "prog": prog, "operator": draw(st.sampled_from(OPERATORS)), "pos": draw(st.integers(0, 50))}
+    if r == 16:
+        # a program variable that carries the name of a constant of the computer algebra system
+        assigned = sorted(L.stmts_assigned(prog["body"]))
+        old = draw(st.sampled_from(assigned))
+        goals = [{old: 1}] + draw(gen.goals_for(prog, meta, max_goals=1))
+        return {"what": "constant_name", "prog": prog, "goals": goals, "old": old, "new": draw(st.sampled_from(CONSTANT_NAMES)),
+                "points": draw(gen.param_points(prog, 1))}
     kind = draw(st.sampled_from(["negative", "sum_gt_1", "explicit_sum_gt_1", "implicit_negative_three", "explicit_sum_lt_1"]))
     target = draw(st.sampled_from((meta["num"] or []) + list(meta["fin"]) or ["x"]))
     return {"what": "badprob", "prog": prog, "kind": kind, "var": target, "pos": draw(st.integers(0, 50))}
@@ -286,6 +305,8 @@ def run_case(case, tier="quick"):
             # the statement only requires rejection of negative probabilities and sums above 1
             return dict(base, status="ok", counters={"sum_below_1_accepted": 1})
         return dict(base, status="violation", bucket="invalid_probabilities_accepted:" + case["kind"], detail={"text": bad, "parsed_as": str(p)})
+    if case["what"] == "constant_name":
+        return _constant_name(case, key, text, tl)
     # ---- equivalent renderings
     knobs = case["knobs"]
     tags = ["equivalent"] + ["knob:" + k for k in knobs] + L.count_constructs(prog)
@@ -356,6 +377,59 @@ def run_case(case, tier="quick"):
     return dict(base, status="ok")
 
 
+def _constant_name(case, key, text, tl):
+    """renaming a variable must not change the analysis: a name the CAS reads as a constant is either rejected or treated as the variable it is"""
+    old, new = case["old"], case["new"]
+    tags = ["constant_name", "name:" + new]
+    base = {"key": key, "tags": tags, "nontrivial": True}
+    progB = rename_variable(case["prog"], old, new)
+    goalsB = [rename_variable(g, old, new) for g in case["goals"]]
+    textB = L.render_program(progB)
+    try:
+        with pd.time_limit(tl):
+            pd.set_settings()
+            pd.parse(textB)
+    except pd.CaseTimeout:
+        return dict(base, status="inconclusive", bucket="time_limit")
+    except Exception as e:
+        return dict(base, status="ok", counters={f"constant_name_rejected_with:{type(e).__name__}": 1})
+    detail = {"text": textB, "variable": new, "original_text": text}
+    try:
+        resA = _analyse(text, case["goals"], tl)
+    except pd.CaseTimeout:
+        return dict(base, status="inconclusive", bucket="polar_time_limit")
+    except Exception as e:
+        return dict(base, status="refusal", bucket=pd.refusal_bucket(e), detail=str(e)[:200])
+    try:
+        resB = _analyse(textB, goalsB, tl)
+    except pd.CaseTimeout:
+        return dict(base, status="inconclusive", bucket="polar_time_limit")
+    except Exception as e:
+        return dict(base, status="violation", bucket="constant_name_accepted_then_failed", detail=dict(detail, error=pd.refusal_bucket(e)))
+    env = case["points"][0] if case["points"] else {}
+    subs = common.polar_subs(env, {})
+    try:
+        with pd.time_limit(tl * 3):
+            for gA, gB in zip(case["goals"], goalsB):
+                ea, eb = resA[pd.monomial_to_str(gA)][0], resB[pd.monomial_to_str(gB)][0]
+                for n in range(0, 5):
+                    try:
+                        a = pd.eval_closed_form(ea, n, subs)
+                    except (ValueError, KeyError):
+                        continue
+                    try:
+                        b = pd.eval_closed_form(eb, n, subs)
+                        same = pd.values_equal(b, a) if isinstance(a, Fraction) else (a == b or abs(complex(a - b)) < 1e-40)
+                    except (ValueError, KeyError, TypeError):
+                        same = False
+                    if not same:
+                        return dict(base, status="violation", bucket="constant_name_reinterpreted",
+                                    detail=dict(detail, goal=pd.monomial_to_str(gB), n=n, with_original_name=common.fmt(a), closed_form=str(eb)[:200]))
+    except pd.CaseTimeout:
+        return dict(base, status="inconclusive", bucket="evaluation_time_limit")
+    return dict(base, status="ok", counters={"constant_name_treated_as_variable": 1})
+
+
 def classify(case, verdict):
     return None
 
@@ -370,6 +444,8 @@ def sample_repr(case, verdict):
             s["text"] = damage(L.render_program(case["prog"]), case["operator"], case["pos"])
         except Exception:
             pass
+    elif case["what"] == "constant_name":
+        s["text"] = L.render_program(rename_variable(case["prog"], case["old"], case["new"]))
     else:
         s["choice"] = bad_choice(case["kind"], case["var"])
     return s
